@@ -42,7 +42,7 @@ let handle (toks : string list) : string =
     (match run_from init labels O with
      | Inr n -> let i = int_of_nat n in "rejected " ^ string_of_int i ^ " " ^ List.nth ls i
      | Inl st ->
-       let sids = uniq (List.concat_map (fun t -> match String.split_on_char ':' t with ["call"; s] -> [int_of_string s] | _ -> []) ls) in
+       let sids = uniq (List.concat_map (fun t -> match String.split_on_char ':' t with ["ret"; s; _] -> [int_of_string s] | _ -> []) ls) in
        let chans = uniq (List.concat_map (fun t -> match String.split_on_char ':' t with ["sub"; c; _] -> [int_of_string c] | _ -> []) ls) in
        let ns = String.concat "," (List.map (fun s -> string_of_int s ^ ":" ^ string_of_int (int_of_nat (count_snd (nat_of_int s) st.log))) sids) in
        let rv = String.concat ";" (List.map (fun c ->
